@@ -566,6 +566,11 @@ func runNums(o *hx.Out, r *hx.Rng, n int) {
 		pv := reflect.New(reflect.TypeOf(in))
 		pv.Elem().Set(reflect.ValueOf(in))
 		emit(numTok(k, in)+" *", pv.Interface(), "pointer")
+		if r.Chance(15) {
+			ppv := reflect.New(pv.Type())
+			ppv.Elem().Set(pv)
+			emit("foreign", ppv.Interface(), "foreign pointer-to-pointer")
+		}
 		if r.Chance(50) {
 			f := hx.Pick(r, fv)
 			if f != nil && reflect.TypeOf(f) != reflect.TypeOf(in) {
@@ -641,56 +646,101 @@ func nearInt(v any, d int64) int64 {
 
 // ---------- enum / literal ----------
 
+// dynTok: a Go value as (dynamic type, value) — what interface equality compares.
+func dynTok(v any) string {
+	switch x := v.(type) {
+	case string:
+		return "string:" + hexs(x)
+	case myStr:
+		return "main.myStr:" + hexs(string(x))
+	case float64:
+		return "float64:" + strconv.FormatUint(math.Float64bits(x), 10)
+	case float32:
+		return "float32:" + strconv.FormatUint(math.Float64bits(float64(x)), 10)
+	}
+	return strings.ReplaceAll(fmt.Sprintf("%T:%v", v, v), " ", "_")
+}
+
+func mkEnum[T comparable](vs []T, literal, ctorPtr bool, r *hx.Rng) (any, string) {
+	switch {
+	case literal && ctorPtr:
+		if len(vs) == 1 {
+			return gozod.LiteralPtr(vs[0]), "LiteralPtr"
+		}
+		return gozod.LiteralPtrOf(vs), "LiteralPtrOf"
+	case literal:
+		if len(vs) == 1 {
+			return gozod.Literal(vs[0]), "Literal"
+		}
+		return gozod.LiteralOf(vs), "LiteralOf"
+	case ctorPtr:
+		if r.Chance(30) {
+			return gozod.EnumSlicePtr(vs), "EnumSlicePtr"
+		}
+		return gozod.EnumPtr(vs...), "EnumPtr"
+	}
+	if r.Chance(30) {
+		return gozod.EnumSlice(vs), "EnumSlice"
+	}
+	return gozod.Enum(vs...), "Enum"
+}
+
+// runEnums: enum / literal schemas over string, int, bool, float64 and mixed (`any`) member types, value and
+// pointer constructors; inputs: members, non-members, equal values of other dynamic types (int64(1) vs 1, named
+// string types), pointers to them.
 func runEnums(o *hx.Out, r *hx.Rng, n int) {
+	cands := []any{"a", "b", "", "c", "A", "aa", "z", "zz", 0, 1, 3, 7, -1, int64(1), int8(-1), uint(3), 1.0, 2.5, float32(1), true, false, myStr("a"), myInt(1)}
 	for it := 0; it < n; it++ {
-		useInt := r.Chance(40)
 		ctorPtr := r.Chance(30)
-		literal := r.Chance(30)
+		literal := r.Chance(35)
+		nvals := 1 + r.Intn(3)
 		var schema any
+		var ctor string
+		var members []any
+		family := hx.Pick(r, []string{"string", "string", "int", "int", "bool", "float64", "any"})
+		switch family {
+		case "string":
+			vs := []string{hx.Pick(r, []string{"a", "b", ""}), hx.Pick(r, []string{"c", "A", "aa"}), "z"}[:nvals]
+			schema, ctor = mkEnum(vs, literal, ctorPtr, r)
+			for _, v := range vs {
+				members = append(members, v)
+			}
+		case "int":
+			vs := []int{r.Intn(5), 5 + r.Intn(5), -1}[:nvals]
+			schema, ctor = mkEnum(vs, literal, ctorPtr, r)
+			for _, v := range vs {
+				members = append(members, v)
+			}
+		case "bool":
+			vs := []bool{r.Bool(), true}[:min(nvals, 2)]
+			schema, ctor = mkEnum(vs, literal, ctorPtr, r)
+			for _, v := range vs {
+				members = append(members, v)
+			}
+		case "float64":
+			vs := []float64{hx.Pick(r, []float64{1, 2.5}), 0.5, -1}[:nvals]
+			schema, ctor = mkEnum(vs, literal, ctorPtr, r)
+			for _, v := range vs {
+				members = append(members, v)
+			}
+		default:
+			vs := []any{hx.Pick(r, []any{1, "a", true}), hx.Pick(r, []any{"z", 2.5, int64(1)}), false}[:nvals]
+			ctorPtr = false // a pointer to an `any` member is itself an `any`: not a C01 question
+			schema, ctor = mkEnum(vs, literal, false, r)
+			members = append(members, vs...)
+		}
 		var vals []string
-		if useInt {
-			vs := []int{r.Intn(5), 5 + r.Intn(5), -1}
-			if literal {
-				vs = vs[:1]
-				schema = gozod.Literal(vs[0])
-				ctorPtr = false
-			} else if ctorPtr {
-				schema = gozod.EnumPtr(vs...)
-			} else {
-				schema = gozod.Enum(vs...)
-			}
-			for _, v := range vs {
-				vals = append(vals, "int:"+strconv.Itoa(v))
-			}
-		} else {
-			vs := []string{hx.Pick(r, []string{"a", "b", ""}), hx.Pick(r, []string{"c", "A", "aa"}), "z"}
-			if literal {
-				vs = vs[:1]
-				schema = gozod.Literal(vs[0])
-				ctorPtr = false
-			} else if ctorPtr {
-				schema = gozod.EnumPtr(vs...)
-			} else {
-				schema = gozod.Enum(vs...)
-			}
-			for _, v := range vs {
-				vals = append(vals, "string:"+hexs(v))
-			}
+		for _, m := range members {
+			vals = append(vals, dynTok(m))
 		}
 		head := fmt.Sprintf("c01 enum %s %d %s", hx.B01(ctorPtr), len(vals), strings.Join(vals, " "))
-		cands := []any{"a", "b", "", "c", "A", "aa", "z", "zz", 0, 1, 3, 7, -1, int64(1), int8(-1), uint(3), 1.0, true, myStr("a"), myInt(1)}
 		for j := 0; j < 4; j++ {
 			v := hx.Pick(r, cands)
-			var tok string
-			switch x := v.(type) {
-			case string:
-				tok = "string:" + hexs(x)
-			case int:
-				tok = "int:" + strconv.Itoa(x)
-			default:
-				tok = fmt.Sprintf("foreign %T", v)
+			if r.Chance(30) {
+				v = hx.Pick(r, members)
 			}
-			asPtr := (tok[0] != 'f') && r.Chance(25)
+			tok := dynTok(v)
+			asPtr := family != "any" && r.Chance(25)
 			var in any = v
 			if asPtr {
 				p := reflect.New(reflect.TypeOf(v))
@@ -706,28 +756,55 @@ func runEnums(o *hx.Out, r *hx.Rng, n int) {
 			case err != nil:
 				obs = "rej:value"
 			default:
-				switch d := derefAll(res).(type) {
-				case string:
-					obs = "ok:string:" + hexs(d)
-				case int:
-					obs = "ok:int:" + strconv.Itoa(d)
-				default:
-					obs = fmt.Sprintf("ok:?%T", res)
-				}
+				obs = "ok:" + dynTok(derefAll(res))
 			}
-			o.Emit(strings.Join(strings.Fields(head+" | "+tok+" #"+fmt.Sprintf("%T literal=%v", in, literal)), " "), obs)
-			o.Count("enum:" + strings.SplitN(obs, ":", 2)[0])
+			o.Emit(strings.Join(strings.Fields(head+" | "+tok+" #"+fmt.Sprintf("%s[%s] in=%T", ctor, family, in)), " "), obs)
+			o.Count("enum:" + family + ":" + strings.SplitN(obs, ":", 2)[0])
 		}
 	}
 }
 
-func runBools(o *hx.Out, r *hx.Rng) {
+func boolPred(k int, v bool) bool {
+	switch k % 3 {
+	case 0:
+		return v
+	case 1:
+		return !v
+	}
+	return true
+}
+
+// runBools: Bool()/BoolPtr() with 0-2 refinements of a fixed family on bool, *bool, **bool and every foreign kind;
+// the model is Prim.parse itself (type dispatch + the check engine), no coercion.
+func runBools(o *hx.Out, r *hx.Rng, n int) {
 	fv := foreignValues()
-	for variant := 0; variant < 2; variant++ {
-		var schema any = gozod.Bool()
-		if variant == 1 {
-			schema = gozod.BoolPtr()
+	for it := 0; it < n; it++ {
+		variant := r.Intn(2)
+		nref := r.Intn(3)
+		var toks []string
+		var schema any
+		if variant == 0 {
+			s := gozod.Bool()
+			for pos := 0; pos < nref; pos++ {
+				k := r.Intn(3)
+				prev := s
+				s = s.Refine(func(v bool) bool { return boolPred(k, v) }, fmt.Sprintf("m%d", pos))
+				_ = prev.Refine(func(bool) bool { return false }, "decoy")
+				toks = append(toks, "ref "+strconv.Itoa(k))
+			}
+			schema = s
+		} else {
+			s := gozod.BoolPtr()
+			for pos := 0; pos < nref; pos++ {
+				k := r.Intn(3)
+				prev := s
+				s = s.Refine(func(v *bool) bool { return v != nil && boolPred(k, *v) }, fmt.Sprintf("m%d", pos))
+				_ = prev.Refine(func(*bool) bool { return false }, "decoy")
+				toks = append(toks, "ref "+strconv.Itoa(k))
+			}
+			schema = s
 		}
+		head := fmt.Sprintf("c01 bool %d %d %s", variant, nref, strings.Join(toks, " "))
 		try := func(tok string, v any, how string) {
 			res, err, pm := parseVia(schema, reflect.ValueOf(v))
 			obs := ""
@@ -735,7 +812,7 @@ func runBools(o *hx.Out, r *hx.Rng) {
 			case pm != "":
 				obs = "panic:" + pm
 			case err != nil:
-				obs = "rej:value"
+				obs = classifyErr(err)
 			default:
 				if b, ok := derefAll(res).(bool); ok {
 					obs = "ok:bool:" + strconv.FormatBool(b)
@@ -743,23 +820,24 @@ func runBools(o *hx.Out, r *hx.Rng) {
 					obs = fmt.Sprintf("ok:?%T", res)
 				}
 			}
-			o.Emit(fmt.Sprintf("c01 enum %d 2 bool:true bool:false | %s #%s", variant, tok, how), obs)
-			o.Count("bool:" + strings.SplitN(obs, ":", 2)[0])
+			o.Emit(strings.Join(strings.Fields(head+" | "+tok+" #"+how), " "), obs)
+			o.Count("bool:" + strings.SplitN(obs, ":", 2)[0] + ":" + strings.SplitN(how, " ", 2)[0])
 		}
-		for _, b := range []bool{true, false} {
-			try("bool:"+strconv.FormatBool(b), b, "bool")
-			bb := b
-			try("bool:"+strconv.FormatBool(b)+"*", &bb, "*bool")
+		b := r.Bool()
+		try("bool:"+strconv.FormatBool(b), b, "bool")
+		bb := b
+		try("bool:"+strconv.FormatBool(b)+"*", &bb, "*bool")
+		if r.Chance(30) {
+			pb := &bb
+			try("bool:"+strconv.FormatBool(b)+"**", &pb, "**bool")
 		}
-		for _, f := range fv {
-			if _, isB := f.(bool); f == nil || isB {
-				continue
+		if r.Chance(60) {
+			f := hx.Pick(r, fv)
+			if _, isB := f.(bool); f != nil && !isB {
+				try("foreign", f, "foreign "+strings.ReplaceAll(fmt.Sprintf("%T", f), " ", ""))
 			}
-			tn := strings.ReplaceAll(fmt.Sprintf("%T", f), " ", "")
-			try("foreign "+tn, f, tn)
 		}
 	}
-	_ = r
 }
 
 func main() {
@@ -792,14 +870,14 @@ func main() {
 		os.Exit(3)
 	}
 	r := hx.NewRng(c.Seed)
-	ns, nn, ne := 15000, 25000, 4000
+	ns, nn, ne, nb := 15000, 25000, 6000, 1500
 	if c.Thorough() {
-		ns, nn, ne = 400000, 700000, 100000
+		ns, nn, ne, nb = 400000, 700000, 150000, 30000
 	}
 	runStrings(o, r, ns)
 	runNums(o, r, nn)
 	runEnums(o, r, ne)
-	runBools(o, r)
+	runBools(o, r, nb)
 	if err := o.Close(map[string]any{"seed": c.Seed, "tier": c.Tier}); err != nil {
 		fmt.Fprintln(os.Stderr, err)
 		os.Exit(3)
